@@ -191,37 +191,56 @@ func c06SplitX(c *core.Ctx, cmem, long bool) {
 		defer func() { atomic.StoreInt32(&stop, 1); <-done }()
 		c.Tag("split:while-another-model-runs")
 	}
-	states := clone2(run.States)
 	desc := NewModel(model).Description()
-	chained := make([][][]float64, N)
-	for i := range chained {
-		chained[i] = make([][]float64, len(desc.Outputs))
-	}
-	for s := 0; s+1 < len(bounds); s++ {
-		a, b := bounds[s], bounds[s+1]
-		seg := &MRun{Model: model, N: N, T: b - a, Sets: run.Sets, Inputs: sliceT(run.Inputs, a, b), States: states}
-		var so *MOut
-		var err error
-		if cmem {
-			var intact bool
-			so, intact, err = ExecuteC(seg, cmode)
-			if !intact {
-				c.Violate("canary", model, "bytes outside a caller-owned C buffer were modified by Run")
-			}
-			c.Count("segments_run_on_c_memory", 1)
-		} else {
-			so, err = Execute(seg)
-		}
-		if err != nil {
-			c.Violate("prepare", model, err.Error())
-			return
-		}
+	// runChain(nudge): the chained run; nudge != 0 moves every handed-over state value (other than whole numbers, which
+	// are bookkeeping) by one representable number up or down - used to measure how far a last-bit difference in the
+	// carried states is amplified by the kernel itself
+	runChain := func(nudge int, onC bool) ([][][]float64, [][]float64, bool) {
+		states := clone2(run.States)
+		chained := make([][][]float64, N)
 		for i := range chained {
-			for j := range chained[i] {
-				chained[i][j] = append(chained[i][j], so.Out[i][j]...)
-			}
+			chained[i] = make([][]float64, len(desc.Outputs))
 		}
-		states = so.States
+		for s := 0; s+1 < len(bounds); s++ {
+			a, b := bounds[s], bounds[s+1]
+			if nudge != 0 && s > 0 {
+				for i := range states {
+					for j, v := range states[i] {
+						if v != math.Trunc(v) && !math.IsNaN(v) && !math.IsInf(v, 0) {
+							states[i][j] = math.Nextafter(v, math.Inf(nudge))
+						}
+					}
+				}
+			}
+			seg := &MRun{Model: model, N: N, T: b - a, Sets: run.Sets, Inputs: sliceT(run.Inputs, a, b), States: states}
+			var so *MOut
+			var err error
+			if onC {
+				var intact bool
+				so, intact, err = ExecuteC(seg, cmode)
+				if !intact {
+					c.Violate("canary", model, "bytes outside a caller-owned C buffer were modified by Run")
+				}
+				c.Count("segments_run_on_c_memory", 1)
+			} else {
+				so, err = Execute(seg)
+			}
+			if err != nil {
+				c.Violate("prepare", model, err.Error())
+				return nil, nil, false
+			}
+			for i := range chained {
+				for j := range chained[i] {
+					chained[i][j] = append(chained[i][j], so.Out[i][j]...)
+				}
+			}
+			states = so.States
+		}
+		return chained, states, true
+	}
+	chained, states, okChain := runChain(0, cmem)
+	if !okChain {
+		return
 	}
 	c.Count("segments_run", float64(len(bounds)-1))
 
@@ -231,6 +250,8 @@ func c06SplitX(c *core.Ctx, cmem, long bool) {
 	}
 	// compare outputs
 	var diffT []int
+	var badOut [][3]int
+	var badSt [][2]int
 	worst := 0.0
 	detail := ""
 	for i := range chained {
@@ -258,6 +279,7 @@ func c06SplitX(c *core.Ctx, cmem, long bool) {
 						detail = fmt.Sprintf("output %s[cell %d][t %d]: uninterrupted %v vs split %v (splits at %v)", desc.Outputs[j], i, t, a, b, splits)
 					}
 					diffT = append(diffT, t)
+					badOut = append(badOut, [3]int{i, j, t})
 				}
 			}
 		}
@@ -277,6 +299,9 @@ func c06SplitX(c *core.Ctx, cmem, long bool) {
 					ok = math.Abs(a-b) <= 0.1/dt+1e-6*math.Abs(a)
 				}
 			}
+			if !ok {
+				badSt = append(badSt, [2]int{i, j})
+			}
 			if !ok && stateBad == "" {
 				name := fmt.Sprint(j)
 				if j < len(desc.States) {
@@ -288,6 +313,44 @@ func c06SplitX(c *core.Ctx, cmem, long bool) {
 	}
 	if detail == "" && stateBad == "" {
 		return
+	}
+	// "the same ... to floating-point round-off": states are handed over through a pack/unpack that may cost the last bit
+	// (Sacramento stores its free-water contents divided by 1+side). Where the kernel itself amplifies a last-bit
+	// difference - a threshold that flips, a nearly singular step - the chained run legitimately leaves the 1e-9 band.
+	// Measure that: repeat the chain with every handed-over state one representable number higher, and lower; a
+	// discrepancy within 1000 times the spread those last-bit changes cause at the same element is round-off, not a
+	// lost or altered state (which moves results by far more than the kernel's sensitivity to the last bit).
+	if up, upSt, ok1 := runChain(+1, cmem); ok1 {
+		if dn, dnSt, ok2 := runChain(-1, cmem); ok2 {
+			spread := func(x, y, z float64) float64 {
+				return math.Max(math.Abs(x-y), math.Max(math.Abs(x-z), math.Abs(y-z)))
+			}
+			explained := true
+			for _, e := range badOut {
+				i, j, t := e[0], e[1], e[2]
+				d := math.Abs(full.Out[i][j][t] - chained[i][j][t])
+				if !(d <= 1000*spread(chained[i][j][t], up[i][j][t], dn[i][j][t])) {
+					explained = false
+					break
+				}
+			}
+			for _, e := range badSt {
+				i, j := e[0], e[1]
+				if !explained || j >= len(upSt[i]) || j >= len(dnSt[i]) {
+					explained = false
+					break
+				}
+				d := math.Abs(full.States[i][j] - states[i][j])
+				if !(d <= 1000*spread(states[i][j], upSt[i][j], dnSt[i][j])) {
+					explained = false
+				}
+			}
+			if explained {
+				c.Count("discrepancies_within_1000x_the_effect_of_one_ulp_in_the_carried_states", 1)
+				c.Max("roundoff_amplified_discrepancy/"+model, worst)
+				return
+			}
+		}
 	}
 	// shape of the failure (used by known-finding signatures)
 	maxLag, atSplitOnly := 0, true
